@@ -47,7 +47,7 @@ def reader_tokens(layout):
             toks.append(("seq", None, d["count_bytes"], dec[1], el))
         else:
             dec = d["dec"] or ("?", "?")
-            toks.append(("prim", dst, d["bytes"], dec[1] if d["bytes"] > 1 else "le", dec[0]))
+            toks.append(("prim", dst, d["bytes"], dec[1] if d["bytes"] > 1 else "le", dec[0] + ("" if not (d.get("wrapped") and d["dec"]) else " through " + d["wrapped"])))
     return toks
 
 
@@ -288,6 +288,19 @@ def _reload(ck, fx, cg):
                 bad |= {h for h in L.REORDERING if L._has_head(e, h)}
         ck.ob("R3.reload", "%s keeps sequences intact" % role, not bad, "", "no reordering / deduplicating collection on the path" if not bad else
               "a sequence passes through %s: order / multiplicity of its elements is not preserved" % "/".join(sorted(bad)))
+    # the loader is fed the bytes of the file: the CLI's input reader is byte-transparent
+    from . import shared
+    sites = shared.reader_transparency(fx)
+    for fn, where, ok, why in sites:
+        ck.ob("R3.source", "%s|input reader" % fn, ok, where,
+              "the input reader is %s" % why if ok else "the bytes of a bytecode file can be altered before Program::from_bytes sees them: the input reader is %s" % why)
+    ck.floor("R3.source", "places that build the CLI's input reader", len(sites), 2)
+    for item in ("read",):
+        fb = fx.body("<NamedSource as std::io::Read>::%s" % item)
+        if ck.anchor("R3.source", "<NamedSource as Read>::%s" % item, fb):
+            from .c08 import _is_plain_forward
+            okf, whyf = _is_plain_forward(fb, "std::io::Read::" + item)
+            ck.ob("R3.source", "NamedSource|%s forwards" % item, okf, loc(fb), whyf)
     # loader: Method arm appends the opcodes read, in order, and records (old length, count)
     rv, err = L.reader_variants(fx, "constant.from_bytes", L.PO)
     ok = False
